@@ -802,3 +802,83 @@ def run_length_cache_sites(repo, task):
     if n != 2:
         rep['detail'] = 'IndexLevelGO.append / extend not found: the generator no longer matches the source layout'
     return rep
+
+
+def run_reader_lockstep_sites(repo, task):
+    """C17 site obligations read off the AST (G16): a lazy store reader (`X = self._store_reader(..., labels=<generator expression>, ...)`) is consumed by `next(X)` inside a
+    loop over the requested items, under a condition on the item.  The k-th Frame the reader delivers is stored under the label of the k-th item for which `next` is
+    called, so the reader's label stream and the consumer must be in lock-step: the generator expression iterates the SAME expression the loop iterates (one snapshot of
+    the selection, not live state the loop mutates) and filters with the SAME predicate that guards `next(X)` (modulo the names of the loop variables).
+    (An independent seeded change filtered the labels by a live view of the loaded flags, which the loop flips on eviction.)"""
+    import ast
+    t0 = time.time()
+    items, failures = [], []
+
+    def ob(name, ok, note, fn, undecided=False):
+        v = 'proved' if ok else ('undecided' if undecided else 'refuted')
+        items.append(dict(name=name, fn=fn, kind='G16', verdict=v, backend='ast', ms=0.0, note=note))
+        if v == 'refuted':
+            failures.append(dict(key=f'G:{name}', what=f'{name}: {note}', nofail=True, replay=dict(site=name, note=note)))
+
+    class _Ren(ast.NodeTransformer):
+        def __init__(self, m):
+            self.m = m
+
+        def visit_Name(self, n):
+            return ast.copy_location(ast.Name(id=self.m.get(n.id, n.id), ctx=n.ctx), n)
+    n_sites = 0
+    core = os.path.join(repo, 'static_frame/core')
+    for mod in sorted(os.listdir(core)):
+        if not mod.endswith('.py'):
+            continue
+        src = open(os.path.join(core, mod)).read()
+        if '_store_reader(' not in src:
+            continue
+        tree = ast.parse(src)
+        for cls in [c for c in tree.body if isinstance(c, ast.ClassDef)]:
+            for fn in [f for f in cls.body if isinstance(f, ast.FunctionDef)]:
+                readers = [a for a in ast.walk(fn) if isinstance(a, ast.Assign) and len(a.targets) == 1 and isinstance(a.targets[0], ast.Name)
+                           and isinstance(a.value, ast.Call) and isinstance(a.value.func, ast.Attribute) and a.value.func.attr == '_store_reader']
+                for ra in readers:
+                    rname = ra.targets[0].id
+                    q = f'{mod}:{cls.name}.{fn.name}:{rname}'
+                    n_sites += 1
+                    labels = next((k.value for k in ra.value.keywords if k.arg == 'labels'), None)
+                    loops = [l for l in ast.walk(fn) if isinstance(l, ast.For) and any(isinstance(c, ast.Call) and isinstance(c.func, ast.Name) and c.func.id == 'next'
+                                                                                       and c.args and isinstance(c.args[0], ast.Name) and c.args[0].id == rname for c in ast.walk(l))]
+                    if not isinstance(labels, ast.GeneratorExp) or len(labels.generators) != 1 or len(loops) != 1:
+                        if loops:      # consumed item by item, but not in the recognised shape
+                            ob(f'{q}:lockstep', False, f'labels= is {type(labels).__name__}, {len(loops)} consuming loops: shape not recognised', q, undecided=True)
+                        else:
+                            n_sites -= 1      # the reader is drained as a whole (no per-item pairing to check)
+                        continue
+                    gen, loop = labels.generators[0], loops[0]
+                    guards = [i for i in ast.walk(loop) if isinstance(i, ast.If) and any(isinstance(c, ast.Call) and isinstance(c.func, ast.Name) and c.func.id == 'next' and c.args
+                                                                                       and isinstance(c.args[0], ast.Name) and c.args[0].id == rname for s_ in i.body for c in ast.walk(s_))]
+                    # the expression the loop iterates: directly, or a name bound next to the reader
+                    it = loop.iter
+                    it_srcs = [ast.unparse(it)]
+                    if isinstance(it, ast.Name):
+                        it_srcs = [ast.unparse(a.value) for a in ast.walk(fn) if isinstance(a, ast.Assign) and any(isinstance(t_, ast.Name) and t_.id == it.id for t_ in a.targets)]
+                    same_iter = ast.unparse(gen.iter) in it_srcs
+                    ob(f'{q}:same-snapshot', same_iter, f'labels iterate `{ast.unparse(gen.iter)}`, the consuming loop iterates {it_srcs}', q)
+                    if len(guards) != 1 or len(gen.ifs) != 1:
+                        ob(f'{q}:same-predicate', False, f'{len(guards)} guards of next({rname}), {len(gen.ifs)} filters of the labels', q, undecided=True)
+                        continue
+                    gt = [e.id for e in gen.target.elts] if isinstance(gen.target, ast.Tuple) and all(isinstance(e, ast.Name) for e in gen.target.elts) else None
+                    lt = [e.id for e in loop.target.elts] if isinstance(loop.target, ast.Tuple) and all(isinstance(e, ast.Name) for e in loop.target.elts) else None
+                    if gt is None or lt is None or len(gt) != len(lt):
+                        ob(f'{q}:same-predicate', False, 'loop targets not plain name tuples of one length', q, undecided=not same_iter or True)
+                        continue
+                    import copy
+                    ren = ast.unparse(_Ren(dict(zip(gt, lt))).visit(copy.deepcopy(gen.ifs[0])))
+                    ob(f'{q}:same-predicate', ren == ast.unparse(guards[0].test), f'labels filtered by `{ren}` (loop names), next({rname}) guarded by `{ast.unparse(guards[0].test)}`', q)
+                    # the guarded name is not rebound between the loop head and the guard (the guard speaks about the item as delivered)
+                    gline = guards[0].lineno
+                    reb = [a.lineno for a in ast.walk(loop) if isinstance(a, ast.Assign) and a.lineno < gline and any(isinstance(t_, ast.Name) and t_.id in lt for t_ in a.targets)]
+                    ob(f'{q}:item-not-rebound-before-guard', not reb, f'rebinding of {lt} at lines {reb}', q)
+    rep = dict(name=task['name'], status='ok' if n_sites >= 1 else 'checker-fault', items=items, failures=failures, evaluations=0, distinct=0, rule='',
+               samples=[dict(obligation=i['name'], verdict=i['verdict']) for i in items[:3]], trusted=[], assumptions=[], wall_s=round(time.time() - t0, 2))
+    if n_sites < 1:
+        rep['detail'] = 'no item-wise consumed store reader found: the generator no longer matches the source layout'
+    return rep
